@@ -602,7 +602,7 @@ def r7_accept_implies_verified(run, rule="R7", only_valid_cert="F",
         br = [cfg.nodes[i] for i in wit if cfg.nodes[i].kind in ("true", "false")
               and "verified" in unparse(cfg.nodes[i].ast)]
         if br:
-            key += "::via:" + br[-1].text()
+            key += "::via:" + br[-1].ctext()
     run.check(wit is None, rule, key,
               "no normal return is reachable unless verified is True "
               "(only_valid_cert=%s)" % only_valid_cert,
